@@ -58,6 +58,87 @@ HDR_MAP = {
 
 
 def run(shard, ctx):
+    walk(ctx, "after_import")
+    exercise(ctx)
+    walk(ctx, "after_use")
+
+
+def snapshot():
+    import pyscsi.pyscsi.scsi_enum_command as E
+
+    from vmon.spec import opcodes as O
+
+    snap = {}
+    for setname in O.SETS:
+        enum = getattr(E, setname)
+        for key in enum.keys:
+            oc = getattr(enum, key)
+            snap[(setname, key)] = (oc.value, tuple(sorted((sk, getattr(oc.serviceaction, sk)) for sk in oc.serviceaction.keys)))
+    return snap
+
+
+def exercise(ctx):
+    """use the library the way applications do -- attach facades to devices of every type and INQUIRY flag pattern,
+    build every command with every opcode object of the right value, call every facade method -- because the tables are
+    live, mutable objects: what they hold after use is what later commands are built from"""
+    import pyscsi.pyscsi.scsi_enum_command as E
+    from pyscsi.pyscsi.scsi import SCSI
+
+    from vmon import harness
+    from vmon.spec import cdb as S, dataout as DO, opcodes as O
+
+    rng = ctx.rng("exercise")
+    before = snapshot()
+    # attach over plain devices whose INQUIRY data carries every flag pattern
+    for devtype in range(32):
+        for filler in (0x00, 0xFF, 0x08, 0xF7):
+            def fill(cmd, devtype=devtype, filler=filler):
+                if cmd.datain is not None and len(cmd.datain) >= 8:
+                    for i in range(len(cmd.datain)):
+                        cmd.datain[i] = filler
+                    cmd.datain[0] = devtype
+                    cmd.datain[4] = len(cmd.datain) - 5
+
+            dev = harness.Recorder(E.spc, fill)
+            try:
+                s = SCSI(dev, 512)
+                s.testunitready()
+                s(dev)
+            except Exception:  # noqa: BLE001
+                pass
+            ctx.count("exercise_attaches")
+    # every command class with every opcode object that carries its operation code, on every table
+    for c in S.COMMANDS.values():
+        a = DO.GEN[c.custom](rng)[0] if c.custom else harness.random_args(c, rng, cap=1024)
+        for setname in O.SETS:
+            enum = getattr(E, setname)
+            for key in enum.keys:
+                oc = getattr(enum, key)
+                if oc.value != c.op:
+                    continue
+                try:
+                    c.load()(oc, **harness.call_kwargs(c, DO.fresh(a) if c.custom else a))
+                except Exception:  # noqa: BLE001
+                    ctx.count("exercise_constructions_refused")
+                ctx.count("exercise_constructions")
+            if c.facade and setname in c.sets:
+                dev = harness.Recorder(enum)
+                try:
+                    harness.facade_call(c, harness.make_facade(dev), DO.fresh(a) if c.custom else dict(a))
+                except Exception:  # noqa: BLE001
+                    pass
+                ctx.count("exercise_facade_calls")
+    after = snapshot()
+    for k in sorted(set(before) | set(after)):
+        ctx.case(("stable",) + k, True)
+        if before.get(k) != after.get(k):
+            b, a2 = before.get(k), after.get(k)
+            what = "appeared" if b is None else "disappeared" if a2 is None else "changed"
+            ctx.fail("C14:table_changed_by_use.%s.%s" % k, "%s.%s %s while the library was being used: %r -> %r" % (k[0], k[1], what, b, a2),
+                     {"table": k[0], "name": k[1], "before": b, "after": a2})
+
+
+def walk(ctx, phase):
     import pyscsi.pyscsi.scsi_enum_command as E
     from pyscsi.pyscsi.scsi_command import SCSICommand
 
@@ -77,7 +158,7 @@ def run(shard, ctx):
             total += 1
             oc = getattr(enum, key)
             ref = O.T10.get(key, O.CONTAINERS.get(key))
-            ctx.case("op:%s:%s" % (setname, key), ref is not None,
+            ctx.case("op:%s:%s:%s" % (phase, setname, key), ref is not None,
                      sample={"table": setname, "name": key, "value": "%02x" % oc.value, "reference": ref})
             ctx.add("tables", setname)
             if ref is None:
@@ -104,11 +185,12 @@ def run(shard, ctx):
                 if key in O.SA:
                     sref = O.SA[key].get(sk)
                 elif key in ("MAINTENANCE_IN", "MAINTENANCE_OUT"):
-                    sref = None
-                    ctx.add("reference_gap_service_actions", "%s.%s" % (key, sk))
+                    sref = O.GENERIC_SA.get(sk)  # SPC names are referenced; the SCC-2 names are a declared gap
+                    if sref is None:
+                        ctx.add("reference_gap_service_actions", "%s.%s" % (key, sk))
                 else:
                     sref = O.GENERIC_SA.get(sk)
-                ctx.case("sa:%s:%s:%s" % (setname, key, sk), sref is not None)
+                ctx.case("sa:%s:%s:%s:%s" % (phase, setname, key, sk), sref is not None)
                 ctx.count("service_actions_seen")
                 if sref is None:
                     if key not in ("MAINTENANCE_IN", "MAINTENANCE_OUT"):
@@ -119,14 +201,15 @@ def run(shard, ctx):
                     ctx.fail("C14:sa.%s.%s.%s" % (setname, key, sk),
                              "%s.%s service action %s is %02Xh, T10 assigns %02Xh" % (setname, key, sk, val, sref),
                              {"table": setname, "name": key, "sa": sk, "value": val, "reference": sref})
-    ctx.count("opcode_entries", total)
-    ctx.count("opcode_entries_referenced", referenced)
+    if phase == "after_import":
+        ctx.count("opcode_entries", total)
+        ctx.count("opcode_entries_referenced", referenced)
 
     # status codes
     for name in E.SCSI_STATUS.keys:
         val = getattr(E.SCSI_STATUS, name)
         ref = O.STATUS.get(name)
-        ctx.case("status:%s" % name, ref is not None, sample={"status": name, "value": val, "reference": ref})
+        ctx.case("status:%s:%s" % (phase, name), ref is not None, sample={"status": name, "value": val, "reference": ref})
         if ref is None:
             ctx.add("unreferenced_status_names", name)
         elif val != ref:
@@ -141,13 +224,13 @@ def run(shard, ctx):
     # obsolete enums: value consistency with T10 by name
     for name in E.OPCODE.keys:
         ref = O.T10.get(name, {"SERVICE_ACTION_IN": 0x9E}.get(name))
-        ctx.case("obsolete:%s" % name, ref is not None)
+        ctx.case("obsolete:%s:%s" % (phase, name), ref is not None)
         if ref is not None and getattr(E.OPCODE, name) != ref:
             ctx.fail("C14:obsolete.OPCODE.%s" % name, "OPCODE.%s is %02Xh, T10 %02Xh" % (name, getattr(E.OPCODE, name), ref),
                      {"name": name})
     for name in E.SERVICE_ACTION_IN.keys:
         ref = O.GENERIC_SA.get(name)
-        ctx.case("obsolete-sa:%s" % name, ref is not None)
+        ctx.case("obsolete-sa:%s:%s" % (phase, name), ref is not None)
         if ref is not None and getattr(E.SERVICE_ACTION_IN, name) != ref:
             ctx.fail("C14:obsolete.SERVICE_ACTION_IN.%s" % name, "wrong value", {"name": name})
 
@@ -158,7 +241,7 @@ def run(shard, ctx):
 
     for v in range(256):
         want = O.group_length(v)
-        ctx.case("len:%02x" % v, True)
+        ctx.case("len:%s:%02x" % (phase, v), True)
         try:
             cdb = SCSICommand.init_cdb(Op(v))
             got = len(cdb)
@@ -175,7 +258,8 @@ def run(shard, ctx):
             elif type(e).__name__ != "OpcodeException":
                 ctx.fail("C14:cdblen.wrong_error.group%d" % (v >> 5), "opcode %02Xh refused with %s, not OpcodeException"
                          % (v, type(e).__name__), {"opcode": v}, exc=e)
-        ctx.count("opcode_values_checked")
+        if phase == "after_import":
+            ctx.count("opcode_values_checked")
 
     # names: OpCode.name vs key (observation only)
     for setname in O.SETS:
